@@ -26,3 +26,11 @@ chk('C13', 'proof',
     'FPComparator_SP (both modes), InttoFP_SP, FPtoInt_SP and FPMult_SP are built by their real constructors and proved for ALL operand patterns of the stated domain against specifications written on the real values of the patterns (integer arithmetic, scaled); the order lemma (real order == key order) is a separate Int-mode obligation with symbolic exponents. FPAdder_SP: sign, commutativity and the 2-ulp error bound are proved per exponent-gap x effective-operation slice (each slice symbolic in both mantissas, both signs and the smaller exponent); slices the solver leaves open in the budget (effective subtraction at gaps <= 3 in the quick tier) are served by a seeded boundary/random bounded stand-in and are NOT counted as discharged.',
     'Quick tier: gap slices {0..3,22..33,64,128,253}; thorough: all 254. FPMult_SP product uninterpreted (congruent, interval-bounded). Composition order trusted to C04; leaf contracts proved in C07/C08.',
     'contract-based deductive verification: composition of proved leaf contracts over the real netlist, z3 BV (+ Int-mode lemma); bounded native stand-in for undecided slices', 'DESIGN.md section 4 / C13')
+chk('C20', 'proof',
+    'CMDRequest.clock and CMDResponse.clock are symbolically executed from the real source (unbounded integer state, symbolic port widths, unconstrained handshake inputs at every step) and proved against the one-step protocol table derived from the statement: hexadecimal accumulation, strobes carrying the accumulated number, the K countdown, response characters and valid/ready holding. A bounded end-to-end companion (random command streams and responses under random pacing on the real blocks vs a reference parser) exercises the sequence-level reading and is labelled bounded.',
+    'Sequence-level clauses follow from the one-step table by induction over characters (meta-step). Precondition size >= 1 for responses.',
+    'contract-based deductive verification: VCs from the AST with state merging, Int mode, z3; bounded native companion', 'DESIGN.md section 4 / C20')
+chk('C17', 'proof',
+    'Per-function proof (from the real source) of the serializer framing table, the deserializer collection / hand-off table and the clock-sync FSM, plus refinement proofs of ClockDivider and EdgeDetector. The end-to-end delivery clause is NOT proved: a bounded stand-in runs the real link for ratios 4..16 (quick) / 4..64 and 434 (thorough), gaps 0..2T, two receiver pacings, with an independent software 8N1 receiver on the line.',
+    'The protocol-level clause (product of five machines with a timing parameter) is outside the deductive reach chosen here (DESIGN section 4 / C17); its evidence is the bounded part only.',
+    'contract-based deductive verification of the per-function tables (AST -> VCs, z3) + bounded simulation stand-in for the link clause', 'DESIGN.md section 4 / C17')
